@@ -79,6 +79,10 @@ type verifPC struct {
 	Queue    *env.Queue
 	Recorder *env.Recorder
 	Cfg      verifPCConfig
+	// identity-preserving cache (Resnapshot)
+	cacheParents  []*unstructured.Unstructured
+	cacheChildren map[string][]*unstructured.Unstructured
+	cacheRV       map[*unstructured.Unstructured]string
 }
 
 const verifFinalizerName = "metacontroller.io/compositecontroller-cc"
@@ -173,6 +177,41 @@ func (p *verifPC) SnapshotFromStore() {
 		children[c.Res.Name] = p.W.Srv.All(c.Res.Name)
 	}
 	p.Snapshot(p.W.Srv.All(p.Cfg.ParentRes.Name), children, p.W.Srv.Revs())
+}
+
+// Resnapshot is what a real informer does between two syncs: objects whose
+// stored version did not change keep their IDENTITY in the cache (the very same
+// in-memory object is handed out again, including anything a sync wrongly
+// wrote into it); changed or new ones are replaced by what the server holds.
+func (p *verifPC) Resnapshot() {
+	if p.cacheRV == nil {
+		p.cacheRV = map[*unstructured.Unstructured]string{}
+	}
+	keep := func(old, cur []*unstructured.Unstructured) []*unstructured.Unstructured {
+		out := make([]*unstructured.Unstructured, 0, len(cur))
+		for _, c := range cur {
+			var same *unstructured.Unstructured
+			for _, o := range old {
+				if o.GetUID() == c.GetUID() && o.GetNamespace() == c.GetNamespace() && o.GetName() == c.GetName() && p.cacheRV[o] == c.GetResourceVersion() {
+					same = o
+				}
+			}
+			if same != nil {
+				out = append(out, same)
+			} else {
+				p.cacheRV[c] = c.GetResourceVersion()
+				out = append(out, c)
+			}
+		}
+		return out
+	}
+	children := map[string][]*unstructured.Unstructured{}
+	for _, c := range p.Cfg.Children {
+		children[c.Res.Name] = keep(p.cacheChildren[c.Res.Name], p.W.Srv.All(c.Res.Name))
+	}
+	parents := keep(p.cacheParents, p.W.Srv.All(p.Cfg.ParentRes.Name))
+	p.cacheParents, p.cacheChildren = parents, children
+	p.Snapshot(parents, children, p.W.Srv.Revs())
 }
 
 func verifStrategyOf(method string) *v1alpha1.CompositeControllerChildUpdateStrategy {
